@@ -190,5 +190,7 @@ Example join_of_split_ex :
      = [0; 3; 0; 1; 2; 4; 10; 82; 104; 171;
         10; 5; 7; 8; 9; 10; 11; 82; 5; 1; 3; 4; 6; 9;
         104; 5; 1; 2; 3; 4; 5; 171; 5; 2; 4; 5; 9; 12;
-        5; 0; 0; 0; 1; 1; 1000000; 2; 1000000; 3; 1000000].
+        5; 0; 0; 0; 1; 1; 1000000; 2; 1000000; 3; 1000000;
+        10; 50; 48; 50; 52; 45; 48; 51; 45; 48; 53;
+        11; 49; 50; 58; 48; 48; 58; 48; 48; 46; 53; 48; 0; 1; 5].
 Proof. split; [apply wf_measb_sound|]; vm_compute; reflexivity. Qed.
